@@ -240,6 +240,17 @@ Definition dt_step (st : dt_state) (o : dt_op) : dt_state :=
   end.
 Definition dt_run (st : dt_state) (ops : list dt_op) : dt_state := fold_left dt_step ops st.
 
+(* is neighbour p connected after the history: the last appearance / disappearance event that
+   concerns p is an appearance ([acc]: connected before the history) *)
+Fixpoint dt_connected_from (acc : bool) (ops : list dt_op) (p : N) : bool :=
+  match ops with
+  | [] => acc
+  | DtAppear q _ :: r => dt_connected_from (if q =? p then true else acc) r p
+  | DtDisappear q _ :: r => dt_connected_from (if q =? p then false else acc) r p
+  | _ :: r => dt_connected_from acc r p
+  end.
+Definition dt_connected (ops : list dt_op) (p : N) : bool := dt_connected_from false ops p.
+
 (* ---------------------------------------------------------------------------------------- *)
 (* 3. forwarding: Core.forward's choice of senders for a DTLSR node                           *)
 
